@@ -13,6 +13,7 @@ __exit__, no flush - exactly "process killed".  Exceptions are injected only at 
 import errno
 import json
 import os
+import re
 import signal
 import sys
 import time
@@ -327,7 +328,8 @@ def run_lifetime(d, argv, sim, timeout=120):
     data = b''.join(chunks)
     if not data:
         return {'exit': code, 'no_result': True}
-    res = json.loads(data.decode())
+    # scratch directory names are random: they must never reach an event log / digest
+    res = json.loads(re.sub(r'simv-[A-Za-z0-9_]{6,10}', 'simv-SCRATCH', data.decode()))
     if 'harness' in res:
         raise RuntimeError('harness failure in child: ' + res['harness'])
     res['exit'] = code
